@@ -385,15 +385,24 @@ def _norm_scaled(raw):
     if not re.search(r"\b(SD|STANDARD|CORR\w*|CHOL\w*)\b", raw, re.I):
         return raw
 
-    def rnd(m):
-        try:
-            return f"{float(m.group(0).upper().replace('D', 'E')):.12g}"
-        except ValueError:
-            return m.group(0)
-
-    head, _, tail = raw.partition("\n")
-    # keep the record name / options, normalise numbers everywhere after the record name
     m = REC.match(raw)
+    mags = []
+    for t in NUMTOK.findall(raw[m.end():]):
+        try:
+            mags.append(abs(float(t.upper().replace("D", "E"))))
+        except ValueError:
+            pass
+    tiny = 1e-12 * max(mags, default=0.0)
+
+    def rnd(mm):
+        try:
+            v = float(mm.group(0).upper().replace('D', 'E'))
+        except ValueError:
+            return mm.group(0)
+        # noise of the conversion to and from the covariance scale: 0.16 -> 0.15999999999999998, 0 -> -5.8e-18
+        return "0" if abs(v) <= tiny else f"{v:.12g}"
+
+    # keep the record name / options, normalise numbers everywhere after the record name
     return raw[:m.end()] + NUMTOK.sub(rnd, raw[m.end():])
 
 
